@@ -460,6 +460,23 @@ pub fn encode_lossy_drop(enc: &'static encoding_rs::Encoding, s: &str) -> Vec<u8
 
 fn enc_text(rng: &mut Rng, enc: &'static encoding_rs::Encoding, long: bool) -> Vec<u8> {
     let mut out = Vec::new();
+    if long && rng.bool() {
+        // a run of plain ASCII at least as long as the decoder's internal buffer, followed by
+        // bytes the fast path cannot take (exercises the fast-path-with-remainder branch)
+        let n = rng.range(1000, 1400);
+        for i in 0..n {
+            out.push(b"abcdefghij klmnop"[i % 17]);
+        }
+        for _ in 0..rng.range(1, 6) {
+            if rng.chance(1, 4) {
+                out.push(rng.range(0x80, 0xff) as u8);
+            } else {
+                out.extend_from_slice(&encode_lossy_drop(enc, rng.pick(UNI_SAMPLES)));
+            }
+            out.extend_from_slice(b"tail ");
+        }
+        return out;
+    }
     let n = if long { rng.range(300, 900) } else { rng.range(1, 12) };
     for _ in 0..n {
         match rng.below(10) {
